@@ -42,6 +42,10 @@ def gen_cases(tier, seed):
             cases.append(dict(ep="mtl", shape="mtl", m=m, retain=rg, seed=seed))
             if m >= 2:  # some losses do not depend on the features at all: their Jacobian rows are zero, the sweeps are the same
                 cases.append(dict(ep="mtl", shape="mtl-inactive", m=m, retain=rg, seed=seed))
+    # many rows (size thresholds: vmap's own chunking, pre-allocated buffers, ...): m = 300, a few chunk sizes around the thresholds
+    for sh in ("one", "scalars"):
+        cases.append(dict(ep="bw", shape=sh, m=300, retain=False, seed=seed, ks=[None, 1, 7, 64, 255, 256, 257, 299, 300, 1000]))
+    cases.append(dict(ep="mtl", shape="mtl", m=70, retain=False, seed=seed, ks=[None, 1, 7, 64, 69, 70, 71]))
     return cases
 
 
@@ -147,7 +151,7 @@ def run_case(case):
         # through the features only: every path to a, b goes through the features in this program
         torch.autograd.backward(total, inputs=T["params"])
     ref = [p.grad.detach().clone() for p in T["params"]]
-    ks = [None] + list(range(1, m + 3))
+    ks = case.get("ks") or ([None] + list(range(1, m + 3)))
     results = {}
     for aggname in ("const", "upgrad"):
         for k in ks:
